@@ -27,6 +27,52 @@ D5_INPUT = ("processor=threaded_mailbox, a multi-output plugin is recomputed whi
             "stored and loader-fed")
 
 # ------------------------------------------------------------------------------------------------
+# known finding F1 (design_notes/C01.md): a zero-length row stored on the EXCLUSIVE END of its chunk.
+# Chunk.__init__ accepts it (endtime <= end), Chunk.split(t == self.end) keeps it left, split_array
+# sends rows with time >= t right: which side the row belongs to depends on where it is stored.
+# The random generator never produces such a chunking; these two fixed probes do.
+# ------------------------------------------------------------------------------------------------
+ZERO_END_UNIT = "zero_length_at_chunk_end"
+ZERO_END_PROBES = [
+    {"input": {"probe": "loop_plugin_silent_drop",
+               "base_rows_t_e_v": [[0, 5, 1], [10, 20, 3]], "base_chunks": [[0, 30]],
+               "thing_rows_t_e_v": [[1, 2, 1], [10, 10, 50], [12, 13, 7]],
+               "thing_chunks_start_end_nrows": [[0, 10, 2], [10, 30, 1]],
+               "expected_event_sums": [2, 60], "got": [2, 10]},
+     "graph": {"T": 30, "target": "n2", "nodes": [
+         {"name": "s0", "kind": "source", "deps": [], "rows": [[0, 5, 0, 1], [10, 20, 1, 3]], "slot": "a", "disjoint": True},
+         {"name": "s1", "kind": "source", "deps": [], "rows": [[1, 2, 100, 1], [10, 10, 101, 50], [12, 13, 102, 7]], "slot": "b"},
+         {"name": "n2", "kind": "loop", "deps": ["s0", "s1"], "a": 1, "b": 0, "slot": "a"}],
+         "chunkings": {"s0": {"0": [[0, 30, 0, 2]], "1": [[0, 30, 0, 2]]},
+                       "s1": {"0": [[0, 30, 0, 3]], "1": [[0, 10, 0, 2], [10, 30, 2, 3]]}}},
+     "keep": []},
+    {"input": {"probe": "same_kind_merge_loud_error",
+               "rows_t_e": [[0, 5], [10, 10], [10, 20]], "stored_dependency_chunks": [[0, 30]],
+               "recomputed_dependency_chunks_start_end_nrows": [[0, 10, 2], [10, 30, 1]],
+               "got": "ValueError: Cannot merge chunks with different number of items"},
+     "graph": {"T": 30, "target": "n2", "nodes": [
+         {"name": "s0", "kind": "source", "deps": [], "rows": [[0, 5, 0, 1], [10, 10, 1, 2], [10, 20, 2, 3]], "slot": "a"},
+         {"name": "n1", "kind": "rowwise", "deps": ["s0"], "coefs": [2], "b": 0, "slot": "b", "rechunk_on_save": False},
+         {"name": "n2", "kind": "rowwise", "deps": ["n1", "s0"], "coefs": [1, 1], "b": 0, "slot": "a"}],
+         "chunkings": {"s0": {"0": [[0, 30, 0, 3]], "1": [[0, 10, 0, 2], [10, 30, 2, 3]]}}},
+     "keep": ["n1"]},
+]
+
+
+def zero_end_tasks():
+    base = {"processor": "single_thread", "max_workers": 1, "allow_lazy": True, "max_messages": 4,
+            "allow_rechunk": True, "api": "get_iter", "allow_multiprocess": False, "switch": 0.005}
+    out = []
+    for i, pr in enumerate(ZERO_END_PROBES):
+        g = json.loads(json.dumps(pr["graph"]))
+        g["prep_cfg"] = dict(base, chunking=0)
+        g["unit"] = ZERO_END_UNIT
+        g["probe_input"] = pr["input"]
+        out.append((g, [dict(base, chunking=1, keep=list(pr["keep"]))], 0, "zeroend_%d" % i, 60))
+    return out
+
+
+# ------------------------------------------------------------------------------------------------
 # generators (everything derives from one random.Random)
 # ------------------------------------------------------------------------------------------------
 
@@ -494,6 +540,16 @@ def warm_up(graph, whole):
                 pass
 
 
+def attach_model(r, graph, cfg, whole, stored, stored_streams):
+    try:
+        m, why = model_case(graph, cfg, whole, stored, stored_streams, r.get("calls") or [])
+    except Exception:  # noqa
+        m, why = None, "model_case crashed: " + traceback.format_exc()[-300:]
+    r["model"] = m
+    r["model_skip"] = why
+    r.pop("calls", None)
+
+
 def run_case(args):
     """Worker entry: returns a JSON-serialisable report for one graph."""
     graph, cfgs, seed, tag, timeout = args
@@ -530,6 +586,7 @@ def run_case(args):
         r0["stage"] = "prep"
         r0["stored_before"] = []
         r0["d5"] = False
+        attach_model(r0, graph, pcfg, whole, set(), {})
         rep["runs"].append(r0)
         have = stored_types(prep)
         for i, cfg in enumerate(cfgs):
@@ -552,7 +609,7 @@ def run_case(args):
             r["stage"] = "measured"
             r["stored_before"] = sorted(stored)
             r["d5"] = d5
-            r["stored_streams"] = {d: v for d, v in r0.get("stored_after", {}).items() if d in stored}
+            attach_model(r, graph, cfg, whole, stored, {d: v for d, v in r0.get("stored_after", {}).items() if d in stored})
             rep["runs"].append(r)
             shutil.rmtree(store, ignore_errors=True)
     except Exception:  # noqa
@@ -602,12 +659,221 @@ def classify(ctx, rep, stats):
             stats["ok"] += 1
             continue
         case = {"graph": graph, "cfg": cfg, "stored_before": r["stored_before"], "stage": r["stage"], "seed_tag": rep["tag"]}
+        if graph.get("unit") == ZERO_END_UNIT:
+            stats["dist"]["zero_end_probe_failed"] = stats["dist"].get("zero_end_probe_failed", 0) + 1
+            ctx.violation(ZERO_END_UNIT, "a zero-length row on the exclusive end of its chunk makes the result depend on "
+                          "the chunking: " + r["reason"], {"input": graph["probe_input"], "case": case, "unit": ZERO_END_UNIT})
+            continue
         if r["d5"]:
             stats["dist"]["d5_class_failed"] = stats["dist"].get("d5_class_failed", 0) + 1
             case["class"] = D5_INPUT
         if True:
             ctx.violation("get_iter", "Context.%s result depends on chunking / processor / stored subset: %s" % (cfg["api"], r["reason"]),
                           {"input": case, "unit": "get_iter", "observed": {k: r.get(k) for k in ("chunks", "exc", "stored_bad")}})
+
+
+# ------------------------------------------------------------------------------------------------
+# (iii) the extracted Coq model Network.eval_graph on the same run
+# ------------------------------------------------------------------------------------------------
+NONE_RUN = -999999
+
+
+def should_save(graph, d, target):
+    from harness.props import c01_plugins as P
+    n = P.node_of(graph)[d]
+    if n["kind"] == "multi":
+        sw = (n.get("save_when_multi") or ["ALWAYS", "ALWAYS"])[P.outputs_of(n).index(d)]
+    elif n["kind"] == "cut":
+        sw = "TARGET"
+    elif n["kind"] == "mergeonly":
+        sw = "EXPLICIT"
+    else:
+        sw = n.get("save_when", "ALWAYS")
+    return sw == "ALWAYS" or (sw == "TARGET" and d == target)
+
+
+def can_rechunk(graph, d):
+    from harness.props import c01_plugins as P
+    n = P.node_of(graph)[d]
+    if n["kind"] == "multi" and n.get("rechunk_multi"):
+        return bool(n["rechunk_multi"][P.outputs_of(n).index(d)])
+    return bool(n.get("rechunk_on_save", True))
+
+
+def model_case(graph, cfg, whole, stored, stored_streams, calls):
+    """The run as input of the extracted model, or (None, why) when a computed node is outside the modelled
+    fragment.  Returns (dict(line, ids, saved), None)."""
+    from harness.props import c01_plugins as P
+    import numpy as np  # noqa
+    target = graph["target"]
+    nodes = P.node_of(graph)
+    kinds = P.kind_of(graph)
+    loaders, compute = plan(graph, stored, target)
+    needed = set(loaders)
+    for n in graph["nodes"]:
+        if n["name"] in compute:
+            outs = P.outputs_of(n)
+            for d in outs:
+                if d == target or any(d in m["deps"] for m in graph["nodes"] if m["name"] in compute) or \
+                        (d not in stored and should_save(graph, d, target)):
+                    needed.add(d)
+    order = [d for n in graph["nodes"] for d in P.outputs_of(n) if d in needed]
+    ids = {d: i + 1 for i, d in enumerate(order)}
+    kind_ids = {}
+    for d in order:
+        kind_ids.setdefault(kinds[d], len(kind_ids) + 1)
+
+    def is_value(d):
+        return nodes[d]["kind"] not in ("cut", "mergeonly")
+
+    def target_rows(d):
+        return int(nodes[d].get("target_mb", 200) * 1e6 // P.np_dtype(graph, d).itemsize)
+
+    def enc_rows(d, a):
+        v = a[P.vf(graph, d)]
+        out = [str(len(a))]
+        for i in range(len(a)):
+            out += [str(int(a["time"][i])), str(int(a["endtime"][i])), str(int(a["id"][i])), str(int(v[i]))]
+        return out
+
+    def enc_given(d, chunks):
+        """chunks: list of (start, end, i0, i1)"""
+        out = [str(len(chunks))]
+        for (s0, e0, i0, i1) in chunks:
+            out += [str(s0), str(e0), str(ids[d]), str(kind_ids[kinds[d]]), "0", str(target_rows(d))] + enc_rows(d, whole[d][i0:i1])
+        return out
+
+    bounds = {}
+    for name, inputs in calls:
+        bounds.setdefault(name, []).append((inputs[0][1], inputs[0][2]))
+    toks = ["eval", str(len(order))]
+    saved = {}
+    for d in order:
+        n = nodes[d]
+        k = n["kind"]
+        given = None
+        if d in loaders:
+            if not is_value(d) or d not in stored_streams:
+                return None, "stored %s dependency" % k
+            pos = 0
+            given = []
+            for (s0, e0, cnt) in stored_streams[d]:
+                given.append((s0, e0, pos, pos + cnt))
+                pos += cnt
+            comp, deps = ["0"], []
+        elif k == "source":
+            given = [tuple(c) for c in graph["chunkings"][d][str(cfg["chunking"])]]
+            comp, deps = ["0"], []
+        else:
+            deps = list(n["deps"])
+            if not all(is_value(x) for x in deps) or len(deps) > 2:
+                return None, "%s with %d dependencies / cut or merge-only inputs" % (k, len(deps))
+            coefs = n.get("coefs") or [1]
+            b = n.get("b", 0)
+            if k == "loop":
+                comp = ["7", str(n.get("a", 1)), str(b)]
+            elif k in ("exhaust", "downchunk") and len(deps) > 1:
+                return None, "%s over a same-kind merge" % k
+            elif k == "exhaust":
+                comp = ["3", str(coefs[0]), str(b), str(n.get("nmul", 1))]
+            elif k == "downchunk":
+                comp = ["4", str(coefs[0]), str(b), str(n["k"])]
+            elif k in ("rowwise", "filter", "multi"):
+                filt = k == "filter" or (k == "multi" and d.endswith("_q"))
+                if len(deps) == 1:
+                    comp = ["2" if filt else "1", str(coefs[0]), str(b)]
+                else:
+                    f1, f2 = P.vf(graph, deps[0]), P.vf(graph, deps[1])
+                    a1, a2 = (coefs[0], coefs[1 % len(coefs)]) if f1 != f2 else (0, coefs[0])
+                    comp = ["6" if filt else "5", str(a1), str(a2), str(b)]
+                if filt:
+                    comp += [str(n["mod"]), str(n["rem"])]
+            else:
+                return None, "kind %s is not in the Coq model" % k
+            if len(deps) == 2:
+                bs = sorted(bounds.get(n["name"], []))
+                if not bs:
+                    return None, "no recorded calls for %s" % n["name"]
+                comp += [str(len(bs))] + [str(e0) for _, e0 in bs]
+        sv = 0
+        if d not in loaders and d not in stored and should_save(graph, d, target):
+            sv = 2 if (can_rechunk(graph, d) and cfg["allow_rechunk"]) else 1
+        saved[d] = sv
+        toks += [str(ids[d]), str(len(deps))] + [str(ids[x]) for x in deps] + comp + \
+                [str(ids[d]), str(kind_ids[kinds[d]]), "0", str(target_rows(d)), str(sv), "1" if given is not None else "0"]
+        if given is not None:
+            toks += enc_given(d, given)
+    return {"line": " ".join(toks), "ids": ids, "saved": saved}, None
+
+
+def parse_model_out(out):
+    """'1=ok [s e n=.. ids=..] ... | saved ok [...] ; 2=...' -> {id: (stream, saved or None)}"""
+    def stream(txt):
+        res = []
+        for part in txt.replace("] [", "]|[").split("|") if txt.strip() else []:
+            f = part.strip().strip("[]").split()
+            ids_ = f[3][4:]
+            res.append([int(f[0]), int(f[1]), [int(x) for x in ids_.split(",")] if ids_ else []])
+        return res
+    res = {}
+    for item in out.split(" ; "):
+        key, rest = item.split("=", 1)
+        main, _, sv = rest.partition(" | saved ")
+        if not main.startswith("ok"):
+            res[int(key)] = (main, None)
+            continue
+        res[int(key)] = (stream(main[2:].strip()), (stream(sv[2:].strip()) if sv.startswith("ok") else sv) if sv else None)
+    return res
+
+
+def compare_model(ctx, reports, stats):
+    """run the extracted model on every modelled run and diff chunk-for-chunk"""
+    jobs = []
+    for rep in reports:
+        for r in rep.get("runs", []):
+            if r.get("model"):
+                jobs.append((rep, r))
+            elif r.get("model_skip"):
+                stats["dist"]["model_skipped"] = stats["dist"].get("model_skipped", 0) + 1
+    if not jobs:
+        return
+    try:
+        outs = lib.run_model_parallel("C01", [r["model"]["line"] for _, r in jobs])
+    except Exception as e:  # noqa
+        ctx.violation("eval_graph", "the extracted model driver failed: %s" % str(e)[:300],
+                      {"input": "corr:C01/eval_graph/driver"}, no_failing_input=True)
+        return
+    n_cmp = 0
+    for (rep, r), out in zip(jobs, outs):
+        if r["reason"] is not None:
+            continue  # the run itself failed the property: already reported with its concrete input
+        m = r["model"]
+        n_cmp += 1
+        diff = None
+        if out.startswith("err") or out.startswith("EXC") or out in ("BAD", "UNKNOWN"):
+            diff = "the model rejects the run (%s) while strax produced the whole-run rows" % out
+        else:
+            parsed = parse_model_out(out)
+            tid = m["ids"][rep["graph"]["target"]]
+            if r.get("chunks") and r["cfg"]["api"] == "get_iter":
+                want = parsed[tid][0]
+                if want != r["chunks"]:
+                    diff = "target chunks differ: strax %s, model %s" % (r["chunks"][:6], want[:6] if isinstance(want, list) else want)
+            for d, sv in m["saved"].items():
+                if diff or not sv or d not in r.get("stored_after", {}):
+                    continue
+                mod = parsed[m["ids"][d]][1]
+                got = r["stored_after"][d]
+                if not isinstance(mod, list) or [[c[0], c[1], len(c[2])] for c in mod] != got:
+                    diff = "saved chunks of %s differ: strax %s, model %s" % (d, got[:6], mod[:6] if isinstance(mod, list) else mod)
+        if diff:
+            ctx.violation("eval_graph", "Network.eval_graph and strax disagree (the result itself equals the whole-run "
+                          "computation): " + diff,
+                          {"input": "corr:C01/eval_graph", "case": {"graph": rep["graph"], "cfg": r["cfg"],
+                                                                    "stored_before": r["stored_before"], "stage": r["stage"]},
+                           "model_line": m["line"][:4000], "model_out": out[:2000]}, no_failing_input=True)
+    ctx.count("eval_graph", n_cmp, n_cmp, {"runs_compared_with_model": n_cmp})
+
 
 
 def _worker_main(k, inq, outq):
@@ -701,6 +967,7 @@ def run(ctx):
     os.makedirs(TMP, exist_ok=True)
     big = ctx.thorough or ctx.escalated()
     n_graphs = 2400 if ctx.thorough else (260 if ctx.escalated() else 130)
+    n_graphs = int(os.environ.get("C01_NGRAPHS", n_graphs))  # development aid
     n_cfg = 4 if big else 3
     rng = ctx.rng
     tasks = []
@@ -712,6 +979,7 @@ def run(ctx):
         g["prep_cfg"] = dict(gen_config(rng, g), chunking=0, api="get_iter", switch=0.005)
         tag = "s%d_%s_%d" % (ctx.seed, ctx.tier[0], len(tasks))
         tasks.append((g, cfgs, rng.randrange(1 << 30), tag, 60))
+    tasks = zero_end_tasks() + tasks
     stats = {"runs": 0, "ok": 0, "dist": {}, "nontrivial": set()}
     nproc = min(14, os.cpu_count() or 4)
     reports = run_pool(tasks, nproc)
@@ -731,6 +999,7 @@ def run(ctx):
         stats["dist"]["cases_repeated_after_timeout"] = len(redo)
     for rep in reports:
         classify(ctx, rep, stats)
+    compare_model(ctx, reports, stats)
     ctx.count("get_iter", stats["runs"], len(stats["nontrivial"]), stats["dist"])
     for rep in reports[:3]:
         if rep.get("runs"):
